@@ -13,14 +13,23 @@ static Rng rng;
 struct NoiselessKS {
     int n_in, n_out, t, basebit, base;
     LweParams *P; LweKeySwitchKey *ks; std::vector<int32_t> s_in, s_out;
+    LweKeySwitchKey *arr = nullptr; int which = -1;      // the key is element 'which' of an array of three keys made by the array allocator
+    static int array_element;                             // -1: single-key constructor
     NoiselessKS(int n_in, int n_out, int t, int basebit) : n_in(n_in), n_out(n_out), t(t), basebit(basebit), base(1 << basebit) {
         P = new_LweParams(n_out, 0., 0.25);
-        ks = new_LweKeySwitchKey(n_in, t, basebit, P);
+        which = array_element;
+        if (which >= 0) { arr = new_LweKeySwitchKey_array(3, n_in, t, basebit, P); ks = &arr[which]; }
+        else ks = new_LweKeySwitchKey(n_in, t, basebit, P);
         s_in.resize(n_in); s_out.resize(n_out);
         for (auto &x: s_out) x = (int32_t) rng.below(2);
         for (auto &x: s_in) x = (int32_t) rng.below(2);
     }
+    void fill_other(LweKeySwitchKey *o) { for (int i = 0; i < n_in; i++) for (int j = 0; j < t; j++) for (int h = 0; h < base; h++) { LweSample *r = &o->ks[i][j][h]; for (int p = 0; p < n_out; p++) r->a[p] = rng.i32(); r->b = rng.i32(); r->current_variance = 0.25; } }
     void fill() {
+        // the elements of an array are filled in index order: neighbours written before and after the one under test
+        if (arr) { for (int e = 0; e < 3; e++) if (e != which) fill_other(&arr[e]); else fill_mine(); } else fill_mine();
+    }
+    void fill_mine() {
         for (int i = 0; i < n_in; i++) for (int j = 0; j < t; j++) for (int h = 0; h < base; h++) {
             LweSample *r = &ks->ks[i][j][h];
             U b = (U) s_in[i] * (U) h * ((U) 1 << (32 - (j + 1) * basebit));
@@ -28,8 +37,9 @@ struct NoiselessKS {
             r->b = (int32_t) b; r->current_variance = 0;
         }
     }
-    ~NoiselessKS() { delete_LweKeySwitchKey(ks); delete_LweParams(P); }
+    ~NoiselessKS() { if (arr) delete_LweKeySwitchKey_array(3, arr); else delete_LweKeySwitchKey(ks); delete_LweParams(P); }
 };
+int NoiselessKS::array_element = -1;
 
 static std::string lay(int t, int bb) { char b[32]; snprintf(b, sizeof b, "t%d.bb%d", t, bb); return b; }
 
@@ -202,6 +212,8 @@ int main(int argc, char **argv) {
     int t = args.i("t", 8), bb = args.i("basebit", 2), n_out = args.i("n_out", 1), n_in = args.i("n_in", 1);
     int shard = args.i("shard", 0), nshards = args.i("nshards", 1);
     rng.reseed(seed * 1000003ull + t * 131 + bb * 17 + n_out * 3 + shard * 7919 + (mode == "noisy" ? 5 : 0));
+    NoiselessKS::array_element = args.i("arrayelement", -1);
+    if (NoiselessKS::array_element >= 0) { char c[64]; snprintf(c, sizeof c, "key-is-element-%d-of-a-key-array", NoiselessKS::array_element); out.cell(c); }
     if (mode == "exact") {
         int lg = args.i("log2count", 24);
         exact_sweep(t, bb, n_out, lg, shard, nshards, args.has("translate"));
